@@ -198,6 +198,12 @@ fn try_normalise(s: &str) -> Option<String> {
             p.field("x")?; let x = p.view()?; p.field("y")?; let y = p.view()?; p.field("s")?; let r = p.view()?;
             format!("{} {} {} {}", match name.as_str() { "Add" => "add", "Mul" => "mul", _ => "mod" }, x, y, r)
         }
+        "LessThan" => {
+            // LessThan { x, y } (strict comparison propagator) is `x.next() <= y` for the integer vocabulary of this
+            // sub-command: print it in that form, which is how the model describes x < y
+            p.field("x")?; let x = p.view()?; p.field("y")?; let y = p.view()?;
+            format!("leq next({}) {}", x, y)
+        }
         "LessThanOrEquals" | "Eq" | "NotEquals" => {
             p.field("x")?; let x = p.view()?; p.field("y")?; let y = p.view()?;
             format!("{} {} {}", match name.as_str() { "LessThanOrEquals" => "leq", "Eq" => "eq", _ => "neq" }, x, y)
